@@ -842,6 +842,55 @@ fn rnd_items(r: &mut StdRng) -> Value {
 	Value::Array(items)
 }
 
+/// Random constants over a small vocabulary, so that sub-entries are shared in many ways.
+fn rnd_const(r: &mut StdRng, depth: usize) -> Value {
+	let names = ["a", "b", "m", "()V", "Code", "gen/Pool", "k/B", "I", "x"];
+	let name = |r: &mut StdRng| names[r.gen_range(0..names.len())];
+	let handle = |r: &mut StdRng| {
+		let field = r.gen_bool(0.3);
+		let kinds: &[&str] = if field { &["getfield", "getstatic", "putfield", "putstatic"] } else { &["invokevirtual", "invokestatic", "invokespecial", "newinvokespecial", "invokeinterface"] };
+		let kind = kinds[r.gen_range(0..kinds.len())];
+		let itf = kind == "invokeinterface" || ((kind == "invokestatic" || kind == "invokespecial") && r.gen_bool(0.3));
+		let owner = ["k/B", "a", "gen/Pool"][r.gen_range(0..3)];
+		let nm = ["b", "f", "m", "a"][r.gen_range(0..4)];
+		let desc = if field { ["I", "J", "La;"][r.gen_range(0..3)] } else { ["()V", "()I", "(I)La;"][r.gen_range(0..3)] };
+		json!({"kind": kind, "owner": owner, "name": nm, "desc": desc, "itf": itf})
+	};
+	match r.gen_range(0..if depth == 0 { 11 } else { 8 }) {
+		0 => json!({"int": r.gen_range(-2..3)}),
+		1 => json!({"float": r.gen_range(0..3)}),
+		2 => json!({"long": r.gen_range(-1..2i64).to_string()}),
+		3 => json!({"double": r.gen_range(0..3u64).to_string()}),
+		4 | 5 => json!({"string": name(r)}),
+		6 => {
+			let c = ["a", "b", "gen/Pool", "k/B", "[I", "[La;"][r.gen_range(0..6)];
+			json!({"class": c})
+		}
+		7 => {
+			let d = ["()V", "()I", "(I)La;"][r.gen_range(0..3)];
+			json!({"method_type": d})
+		}
+		8 => json!({"method_handle": handle(r)}),
+		_ => {
+			let nargs = r.gen_range(0..3);
+			let args: Vec<Value> = (0..nargs).map(|_| rnd_const(r, depth + 1)).collect();
+			let (bn, dn, dd) = (["b", "c"][r.gen_range(0..2)], ["x", "y", "m"][r.gen_range(0..3)], ["I", "J", "La;", "D"][r.gen_range(0..4)]);
+			let bsm = json!({"kind": "invokestatic", "owner": "k/B", "name": bn, "desc": "()Ljava/lang/Object;", "itf": false});
+			json!({"dynamic": {"bsm": bsm, "args": args, "name": dn, "desc": dd}})
+		}
+	}
+}
+
+fn rnd_pool(r: &mut StdRng) -> Value {
+	let n = r.gen_range(1..=14usize);
+	let puts: Vec<Value> = (0..n).map(|_| rnd_const(r, 0)).collect();
+	let pre = if r.gen_bool(0.2) { r.gen_range(0..5) } else { r.gen_range(100..128) };
+	// the specification's renaming model covers constants without handles
+	let plain = puts.iter().all(|c| c.get("method_handle").is_none() && c.get("dynamic").is_none() && c.get("class").map_or(true, |x| !x.as_str().unwrap_or("").starts_with('[')));
+	let pad = [0, 0, 7, 300][r.gen_range(0..4)];
+	json!({"op": "pool", "pre": pre, "puts": puts, "ren": plain && r.gen_bool(0.4), "pad": pad, "rnd": true})
+}
+
 pub fn gen(seed: u64, n: usize) -> Result<Vec<Value>> {
 	let mut r = StdRng::seed_from_u64(seed ^ 0xC02);
 	let thorough = n >= 2000;
@@ -880,7 +929,7 @@ pub fn gen(seed: u64, n: usize) -> Result<Vec<Value>> {
 		}
 	}
 	let n_layout = if thorough { 600 } else { 50 };
-	let room = n.saturating_sub(out.len() + n_layout);
+	let room = n.saturating_sub(out.len() + n_layout + if thorough { 400 } else { 40 });
 	let stride = (corpus.len() * 7 / 6 / room.max(1)).max(1);
 	let off = if stride > 1 { r.gen_range(0..stride) } else { 0 };
 	for (k, id) in corpus.iter().enumerate() {
@@ -891,9 +940,12 @@ pub fn gen(seed: u64, n: usize) -> Result<Vec<Value>> {
 			}
 		}
 	}
-	// 3. random item lists with big pads
+	// 3. random item lists with big pads, random constant sequences
 	for _ in 0..n_layout {
 		out.push(json!({"op": "layout", "items": rnd_items(&mut r), "rnd": true}));
+	}
+	for _ in 0..(if thorough { 400 } else { 40 }) {
+		out.push(rnd_pool(&mut r));
 	}
 	Ok(out)
 }
